@@ -43,7 +43,8 @@ def parse_run(r):
     if r.timeout:
         return {"verdict": "hang"}
     if r.sig or r.rc == 101 or r.rc > 1:
-        return {"verdict": "crash", "detail": r.status() + " " + r.err.decode(errors="replace")[-600:]}
+        # (a panic message of the Rust runtime names the OS thread id, which the simulator does not own)
+        return {"verdict": "crash", "detail": r.status() + " " + re.sub(r"(thread '[^']*') \(\d+\)", r"\1", r.err.decode(errors="replace")[-600:])}
     if r.rc == 1:
         codes = CODE.findall(r.err.decode(errors="replace"))
         heads = HDR.findall(r.err.decode(errors="replace"))
